@@ -14,7 +14,7 @@ PROPS["C35"] = dict(
                "Tied to the code by byte-exact comparison of save() with the model writer (columns built from value lists and "
                "from random splice edits), by comparing accept / reject / panic and the decoded runs of load on random, mutated "
                "and hand-structured byte strings (over-long varints, count-0/1 runs, mergeable runs, truncation, i64::MIN headers, "
-               "huge counts) with the model loader, and by direct checks load(save(c)) == c, load(save(load b)) == load b.",
+               "huge counts) with the model loader, by direct checks load(save(c)) == c, load(save(load b)) == load b, and save(load b) == b whenever b is the canonical spelling.",
     rule="per column type (u64, i64, String, Vec<u8>, each plain and Option; bool; delta i64/u64 plain and Option): value lists of "
          "0..300 (model) and 300..2000 (direct) values with long runs, alternation, literal stretches, nulls, extremes (i64::MIN/MAX, "
          "u64::MAX, empty and multi-byte UTF-8 strings, invalid UTF-8 blobs), half of them edited by up to 8 random splices; malformed "
